@@ -35,6 +35,16 @@ TEMPLATES = [
 ]
 
 _COUNTER = itertools.count(1)
+POISONED = False      # an operation hung in this process (a lock may be held for good): nothing more is run here
+OP_TIMEOUT = 30
+
+
+class OpHang(BaseException):
+    pass
+
+
+def _alarm(signum, frame):
+    raise OpHang()
 
 
 class Injected(Exception):
@@ -178,11 +188,20 @@ class History:
         from tawazi.errors import TawaziArgumentException, TawaziBaseException, TawaziUsageError
 
         D, n = self.D, self.n
+        import signal
+
+        global POISONED
         self.rec.reset()
         self._verif.sink = self.rec
         out, ret = 0, None
+        old_handler = signal.signal(signal.SIGALRM, _alarm)
+        signal.alarm(OP_TIMEOUT)
         try:
             ret = thunk()
+        except OpHang:
+            out = 6
+            POISONED = True
+            self.poisoned = True
         except ValueError:
             out = 3
         except TawaziUsageError:
@@ -197,6 +216,8 @@ class History:
             out = 5
             self.last_error = repr(e)
         finally:
+            signal.alarm(0)
+            signal.signal(signal.SIGALRM, old_handler)
             self._verif.sink = None
         ids = [f"f{k}" for k in range(1, n + 1)]
         ent = self.rec.entered
@@ -358,7 +379,7 @@ class History:
                             await asyncio.gather(self.inst[i].setup(), self.inst[j].setup())
                         asyncio.run(both())
                     else:
-                        ts = [threading.Thread(target=self.inst[k].setup) for k in (i, j)]
+                        ts = [threading.Thread(target=self.inst[k].setup, daemon=True) for k in (i, j)]
                         for t in ts:
                             t.start()
                         for t in ts:
@@ -376,8 +397,10 @@ class History:
                 raise box["exc"]
         ev, _ = self.observe("gsetup", i, go, extra={"j": j})
         if getattr(self, "last_error", "").startswith("TimeoutError") and ev["out"] == 5:
+            global POISONED
             ev["out"] = 6
             self.poisoned = True        # a thread of this process is stuck for good
+            POISONED = True
         res2 = self.inst[j].results
         ev["nonces2"] = [nonce_of(res2.get(f"f{k}")) for k in range(1, self.n + 1)]
 
@@ -558,17 +581,20 @@ def _work(args):
     for job in jobs:
         d, ops, is_async = job[:3]
         sres = job[3] if len(job) > 3 else "thread"
+        if POISONED:
+            out.append({"d": d + 1, "ops": ops, "async": is_async, "sres": sres, "ev": [], "skipped": True})
+            continue
         ev = run_history(TEMPLATES[d], ops, is_async, sres)
         out.append({"d": d + 1, "ops": ops, "async": is_async, "sres": sres, "ev": ev})
     return out
 
 
-def run_all(jobs, procs=12, chunk=40):
+def run_all(jobs, procs=12, chunk=30):
     import multiprocessing as mp
 
     chunks = [jobs[i:i + chunk] for i in range(0, len(jobs), chunk)]
     out = []
-    pool = mp.get_context("fork").Pool(procs, maxtasksperchild=10)
+    pool = mp.get_context("fork").Pool(procs, maxtasksperchild=1)      # a fresh process per chunk: a hang poisons only its chunk
     for r in pool.imap(_work, chunks):
         out.extend(r)
     pool.close()
